@@ -9,6 +9,7 @@
 
 use std::sync::atomic::{AtomicBool, AtomicU64, Ordering};
 use std::sync::{Arc, Mutex};
+use std::future::Future as _;
 use std::time::{Duration, Instant};
 
 use fastrace::collector::{Config, Reporter};
@@ -44,6 +45,31 @@ pub struct BgThread {
     /// pause before the thread's first tracing call (its first command registers its queue)
     #[serde(default)]
     pub start_delay_us: u16,
+    /// > 0: the thread's first tracing activity is polling, `adapter_polls` times up to completion,
+    /// an `in_span` future that was created on the main thread and migrated here (a task picked
+    /// up by a fresh worker thread); every poll records one local span
+    #[serde(default)]
+    pub adapter_polls: u8,
+}
+
+/// pending `left` times; every poll records one local span under the current local parent
+struct PollN {
+    left: u8,
+    i: u8,
+    name: String,
+}
+impl std::future::Future for PollN {
+    type Output = ();
+    fn poll(mut self: std::pin::Pin<&mut Self>, _cx: &mut std::task::Context<'_>) -> std::task::Poll<()> {
+        let _l = LocalSpan::enter_with_local_parent(format!("{}-p{}", self.name, self.i));
+        self.i += 1;
+        if self.left == 0 {
+            std::task::Poll::Ready(())
+        } else {
+            self.left -= 1;
+            std::task::Poll::Pending
+        }
+    }
 }
 
 #[derive(Clone, Debug, Serialize, Deserialize, PartialEq)]
@@ -51,9 +77,19 @@ pub struct BgCase {
     pub threads: Vec<BgThread>,
     /// the main thread finishes the shared root before (true) or after (false) the wait
     pub finish_root_first: bool,
+    /// a pool of threads that have each used tracing once and stay around (a server's worker
+    /// threads): many registered queues while the generated threads come and go
+    #[serde(default)]
+    pub pool: u8,
 }
 
 pub fn strategy() -> BoxedStrategy<BgCase> {
+    strategy_for("C01")
+}
+
+/// C13: every generated thread starts by completing a migrated `in_span` future
+pub fn strategy_for(prop: &str) -> BoxedStrategy<BgCase> {
+    let adapters = if prop == "C13" { prop_oneof![1u8..5].boxed() } else { prop_oneof![3 => Just(0u8), 1 => 1u8..4].boxed() };
     let op = prop_oneof![
         3 => Just(BgOp::Root),
         3 => Just(BgOp::Child),
@@ -63,10 +99,10 @@ pub fn strategy() -> BoxedStrategy<BgCase> {
         2 => prop_oneof![Just(0u16), 1u16..400, 2000u16..30000].prop_map(|us| BgOp::Pause { us }),
         1 => (1500u16..4000).prop_map(|n| BgOp::Backlog { n }),
     ];
-    let th = (proptest::collection::vec(op, 1..7), any::<bool>(), prop_oneof![2 => Just(0u16), 3 => 0u16..3000, 1 => 3000u16..15000])
-        .prop_map(|(ops, exit_now, start_delay_us)| BgThread { ops, exit_now, start_delay_us });
-    (prop_oneof![3 => proptest::collection::vec(th.clone(), 1..4), 1 => proptest::collection::vec(th, 4..9)], any::<bool>())
-        .prop_map(|(threads, finish_root_first)| BgCase { threads, finish_root_first })
+    let th = (proptest::collection::vec(op, 1..7), any::<bool>(), prop_oneof![2 => Just(0u16), 3 => 0u16..3000, 1 => 3000u16..15000], adapters)
+        .prop_map(|(ops, exit_now, start_delay_us, adapter_polls)| BgThread { ops, exit_now, start_delay_us, adapter_polls });
+    (prop_oneof![3 => proptest::collection::vec(th.clone(), 1..4), 1 => proptest::collection::vec(th, 4..9)], any::<bool>(), prop_oneof![4 => Just(0u8), 1 => 32u8..48])
+        .prop_map(|(threads, finish_root_first, pool)| BgCase { threads, finish_root_first, pool })
         .boxed()
 }
 
@@ -116,6 +152,36 @@ pub fn run(c: &BgCase) -> BgOutcome {
     let release = Arc::new(AtomicBool::new(false));
     let mut hs = vec![];
     let mut exits = 0;
+    // the pool registers first and waits for the end of the case
+    let mut pool_hs = vec![];
+    let pool_ready = Arc::new(AtomicU64::new(0));
+    for k in 0..c.pool {
+        let tag2 = tag.clone();
+        let expect2 = expect.clone();
+        let release2 = release.clone();
+        let ready2 = pool_ready.clone();
+        pool_hs.push(
+            std::thread::Builder::new()
+                .name("vt-bg-pool".into())
+                .spawn(move || {
+                    let name = format!("pool-{}-{}", tag2, k);
+                    drop(Span::root(name.clone(), SpanContext::new(TraceId(base + 500 + k as u128), SpanId(0))));
+                    expect2.lock().unwrap().push((name, 1, Instant::now()));
+                    ready2.fetch_add(1, Ordering::SeqCst);
+                    let deadline = Instant::now() + DEADLINE + Duration::from_secs(4);
+                    while !release2.load(Ordering::SeqCst) && Instant::now() < deadline {
+                        std::thread::sleep(Duration::from_millis(2));
+                    }
+                })
+                .unwrap(),
+        );
+    }
+    {
+        let t0 = Instant::now();
+        while pool_ready.load(Ordering::SeqCst) < c.pool as u64 && t0.elapsed() < Duration::from_secs(5) {
+            std::thread::sleep(Duration::from_micros(200));
+        }
+    }
     for (t, th) in c.threads.iter().enumerate() {
         let parent = Span::enter_with_parent(format!("handoff-{}-{}", tag, t), &live_root);
         let th = th.clone();
@@ -125,6 +191,13 @@ pub fn run(c: &BgCase) -> BgOutcome {
         if th.exit_now {
             exits += 1;
         }
+        // a task created here and completed on the new thread
+        let task = if th.adapter_polls > 0 {
+            let sp = Span::enter_with_parent(format!("fut-{}-{}", tag, t), &live_root);
+            Some(Box::pin(PollN { left: th.adapter_polls - 1, i: 0, name: format!("fut-{}-{}", tag, t) }.in_span(sp)))
+        } else {
+            None
+        };
         hs.push(
             std::thread::Builder::new()
                 .name("vt-bg".into())
@@ -132,9 +205,25 @@ pub fn run(c: &BgCase) -> BgOutcome {
                     if th.start_delay_us > 0 {
                         std::thread::sleep(Duration::from_micros(th.start_delay_us as u64));
                     }
+                    let mut mine: Vec<(String, usize, Instant)> = vec![];
+                    let mut _kept_task = None;
+                    if let Some(mut task) = task {
+                        let waker = crate::exec::noop_waker();
+                        let mut cx = std::task::Context::from_waker(&waker);
+                        let mut polls = 0u8;
+                        while task.as_mut().poll(&mut cx).is_pending() {
+                            polls += 1;
+                        }
+                        let now = Instant::now();
+                        for k in 0..=polls {
+                            mine.push((format!("fut-{}-{}-p{}", tag2, t, k), 1, now));
+                        }
+                        // the adapter object stays alive; the span ended with the completing poll
+                        mine.push((format!("fut-{}-{}", tag2, t), 1, now));
+                        _kept_task = Some(task);
+                    }
                     let own = Span::root(format!("own-{}-{}", tag2, t), SpanContext::new(TraceId(base + 1 + t as u128), SpanId(0)));
                     let mut backlog_left = 9000usize;
-                    let mut mine: Vec<(String, usize, Instant)> = vec![];
                     for (i, op) in th.ops.iter().enumerate() {
                         let name = format!("s{}-{}-{}", t, tag2, i);
                         match op {
@@ -249,6 +338,9 @@ pub fn run(c: &BgCase) -> BgOutcome {
     std::thread::sleep(interval * 3);
     release.store(true, Ordering::SeqCst);
     for h in waiting {
+        let _ = h.join();
+    }
+    for h in pool_hs {
         let _ = h.join();
     }
     let mut s = SINK.lock().unwrap();
